@@ -33,7 +33,7 @@ EXHAUSTIVE = {}
 
 def plan(tier, seed):
     q = tier == "quick"
-    return [{"name": "s%d" % i, "i": i, "a": 9 if q else 260, "b_streams": 1 if q else 6, "rmax": 12 if q else 40, "l1": 30 if q else 600} for i in range(NSHARD)]
+    return [{"name": "s%d" % i, "i": i, "a": 9 if q else 800, "b_streams": 1 if q else 10, "rmax": 12 if q else 40, "l1": 30 if q else 2000} for i in range(NSHARD)]
 
 
 def mass(tokens):
